@@ -1,6 +1,7 @@
 (* driver.ml — hand-written glue around the extracted model (model.ml).
    Reads one case per line (unsigned integers, f32 as bit patterns), prints one
    canonical result line per case in the same format as the Rust harness. *)
+type ostr = string   (* OCaml's string: the extracted model has its own [string] *)
 open Model
 
 (* ---- integer conversions (Z, positive, nat stay the extracted inductives) ---- *)
@@ -22,7 +23,7 @@ let f32_of_int (b : int) : f32 = of_bits (z_of_int b)
 let int_of_f32 (f : f32) : int = int_of_z (to_bits f)
 
 (* ---- token stream ---- *)
-type stream = { toks : string array; mutable pos : int }
+type stream = { toks : ostr array; mutable pos : int }
 let next_tok s = let t = s.toks.(s.pos) in s.pos <- s.pos + 1; t
 let next s = int_of_string (next_tok s)
 let next_nat s = nat_of_int (next s)
@@ -98,3 +99,18 @@ let parse_oracle s : oracle =
 let buf_bits b (l : f32 list) = List.iter (fun f -> Printf.bprintf b " %d" (int_of_f32 f)) l
 
 let choice_code = function TUnknown -> 0 | TLeft -> 1 | TRight -> 2 | TBoth -> 3
+
+(* ---- Coq strings ---- *)
+let ascii_of_char (c : char) : ascii =
+  let n = Char.code c in let b i = (n lsr i) land 1 = 1 in
+  Ascii (b 0, b 1, b 2, b 3, b 4, b 5, b 6, b 7)
+let char_of_ascii (Ascii (b0, b1, b2, b3, b4, b5, b6, b7)) : char =
+  let v b i = if b then 1 lsl i else 0 in
+  Char.chr (v b0 0 + v b1 1 + v b2 2 + v b3 3 + v b4 4 + v b5 5 + v b6 6 + v b7 7)
+let coq_string (s : ostr) : Model.string =
+  let r = ref EmptyString in
+  for i = Stdlib.String.length s - 1 downto 0 do r := String (ascii_of_char s.[i], !r) done; !r
+let ocaml_string (s : Model.string) : ostr =
+  let b = Buffer.create 64 in
+  let rec go = function EmptyString -> () | String (c, r) -> Buffer.add_char b (char_of_ascii c); go r in
+  go s; Buffer.contents b
